@@ -104,10 +104,11 @@ SPEC = {
     "shrink": shrink,
     "search": search,
     "rule": "generated shader files (progen: up to 7 resources of 18 kinds incl. arrays, static samplers, bindless, bind groups; "
-            "helper call graphs; 1-4 pipelines compute / vertex+pixel / mesh+pixel / task+mesh) in 50 variants (accepted: plain, "
-            "explicit pipeline state, include guards, object-like macros, #if __HLSL_VERSION, dead garbage in #if 0, unbounded "
+            "helper call graphs; 1-4 pipelines compute / vertex+pixel / mesh+pixel / task+mesh) in 53 variants (accepted: plain, "
+            "explicit pipeline state, include guards, object-like macros, #if __HLSL_VERSION, dead garbage in #if 0 incl. lines "
+            "that start with # but name no directive, unbounded "
             "array, resources named like HLSL/MSL reserved words, declarations in an included file, API-level defines, a struct "
-            "whose layouts differ between HLSL and Metal; rejected: 20 injected lexer / preprocessor / parser / type / "
+            "whose layouts differ between HLSL and Metal, a global of a non-resource object kind (refused by every exporter); rejected: 20 injected lexer / preprocessor / parser / type / "
             "pipeline errors at the top, middle and end of the file; layout validation requested), plus the self-contained wide "
             "programs of harness/src/c17/wgen.rs in 12 option combinations (21 resource kinds, typedef'd / unsized / bindless "
             "arrays, cbuffers with 0-5 members, static sampler properties, per-primitive mesh / pixel shapes, bodies calling "
@@ -117,7 +118,8 @@ SPEC = {
             "define list and compared with the Lean macro model (a quarter of them mention RSSL_TARGET_* on purpose); "
             "non-trivial = accepted file with resources and pipelines / preprocessor program with macros that produces output",
     "level_text": "Proof of the logic plus source inventories: (1) for a compact executable model of the preprocessor (object-like "
-                  "macros with the disabled-set recursion rule, #define/#undef table discipline, the 3-state condition chain, "
+                  "macros with the disabled-set recursion rule, #define/#undef table discipline, the condition chain with its "
+                  "3-state gate and the nothing-follows-#else rule of fix 03ca601 (`no_branch_after_else`), "
                   "`defined`), a macro that is never mentioned is proved irrelevant for files of any length and nesting, hence the "
                   "token stream / error is the same for every target when RSSL_TARGET_* is unmentioned, hence compile()'s front "
                   "end (modelled as preprocess-then-a-function-of-the-tokens, the shape and argument reads of which are "
@@ -127,7 +129,9 @@ SPEC = {
                   "stage kinds and sizes; (4) both back ends' ObjectType->DescriptorType tables are extracted and proved equal, "
                   "descriptor kind/count are proved to be functions of the declaration alone, and the compared part of the "
                   "reflection (static samplers and buffer addresses aside) is proved equal for any declaration list and any two "
-                  "parameter sets. Partial: that the HLSL output for dx and vk differs only in annotations is proved "
+                  "parameter sets; a global of an object kind without a register class (RayDesc, RayQuery, TriangleStream: fix "
+                  "774c0b4) is proved to be refused by every back end under every parameter set. "
+                  "Partial: that the HLSL output for dx and vk differs only in annotations is proved "
                   "for a thin model of the extern global / cbuffer declarations only (the harness compares the real sources "
                   "token for token after erasing `: register(..)` and `[[vk::..]]`); binding *names* are shared only when every "
                   "declared name is reserved in neither or in both target languages (each exporter reports its emitted name) - "
